@@ -33,6 +33,8 @@ pub struct ChainState {
     pub next_id: u32,
     /// versions up to and including this index are "discarded" (not served)
     pub discarded_upto: Option<usize>,
+    /// number of add_version requests answered with ExpectedParentVersion (statistics only)
+    pub rejections: u32,
 }
 
 pub fn vid(n: u32) -> Uuid {
@@ -188,7 +190,10 @@ impl Server for MServer {
         let res = {
             let mut st = self.st.lock().unwrap();
             match st.latest() {
-                Some(l) if l != parent_version_id => (AddVersionResult::ExpectedParentVersion(l), SnapshotUrgency::None),
+                Some(l) if l != parent_version_id => {
+                    st.rejections += 1;
+                    (AddVersionResult::ExpectedParentVersion(l), SnapshotUrgency::None)
+                }
                 _ => {
                     st.next_id += 1;
                     let id = vid(st.next_id);
